@@ -380,3 +380,25 @@ reg("C19", "c19", [("blas_box", "plain", 4), ("lapack_box", "plain", 4), ("base_
     level_note="The page-guard allocator sketched in the design was not built; out-of-bounds accesses inside OpenBLAS/LAPACK are "
                "only visible through the model, crashes and modified neighbours inside the same argument.",
     design_ref="4/C19")
+
+reg("C20", "c20", [("roundtrip", "plain", 6), ("histories", "asan", 10)], "exploration",
+    rule="roundtrip: Hypothesis draws a dense ('i','d','z') or sparse ('d','z') matrix of size 0..4 x 0..4 with special values "
+         "(-0.0, nan, +-inf, 1e308, 5e-324, +-2^63) and explicit zeros, and one of 15 ways of copying it (pickle protocols "
+         "0-5, pickle to a file, copy, deepcopy, deepcopy inside a container, matrix(x)/spmatrix(V,I,J), +x, x[:,:], "
+         "tofile/fromfile, rebuilt from pickled triplets), or a buffer source (numpy arrays of 11 dtypes, 0-3 dimensions, "
+         "C/F order, steps +-1/+-2, transposed; array.array; memoryview of a matrix; cast memoryviews; bytes), optionally "
+         "behind an exporter that counts acquire/release, with and without tc, or an export through memoryview/numpy, or a "
+         "short file. histories: 3-12 steps on one dense matrix out of export (memoryview, numpy), element assignment, "
+         "in-place operators incl. type-changing ones, writes through an exported view, copies and mutation of copies, size "
+         "change, aliasing, release of a view, dropping every name of the matrix while views are held, fromfile, heap churn; "
+         "the extension is built with AddressSanitizer. Non-trivial = copy that could be mutated on both sides, import of >= 2 "
+         "elements, history with an exported view and >= 2 mutations.",
+    assumptions=["equality is judged on size, typecode and repr() of every element (distinguishes nan, -0.0) and, for sparse "
+                 "matrices, on the I, J, V triplet lists",
+                 "importable buffer formats are 'l', 'i', 'd', 'Zd' with 1 or 2 dimensions (doc/source/matrices.rst, dense.c FMT_STR)",
+                 "numpy is the reference reader of exported buffers"],
+    technique="property-based round-trip and model-based stateful testing (Hypothesis) of sharing/independence, under AddressSanitizer",
+    level_text="~8e4 (quick) / 2.5e6 (thorough) round trips and imports/exports compared exactly, ~1.2e4 / 4e5 aliasing histories "
+               "with a sharing model checked after every step under ASan.",
+    level_note="Trusts numpy's buffer consumer and pickle/copy of the standard library.",
+    design_ref="4/C20")
